@@ -21,7 +21,10 @@ func RandKey(r *rand.Rand, sourcePct int) string {
 func LabelProps(r *rand.Rand, label string) gts.Props {
 	p := gts.Props{}
 	p.Add("label", label)
-	switch r.Intn(4) {
+	switch r.Intn(5) {
+	case 4:
+		// a multi-valued qualifier whose values are not in lexicographic order.
+		p.Add("db_xref", "z:"+label, "a:"+label, "m:"+label)
 	case 0:
 		p.Add("note", "n"+label)
 	case 1:
